@@ -242,9 +242,490 @@ Proof.
   intros E. destruct (rel_rec_good _ _ _ _ _ E) as (S & N & B & C & R).
   split; [exact B|]. intros h. split.
   - intros Rh. induction Rh as [k Hs|k h v c Rh IH Hh Hc Hs]; [exact N|].
-    exact (C h v Hh IH c Hc).
+    exact (C h v Hh (IH E N B R) c Hc).
   - intros NR. destruct (st' !! h) as [x|] eqn:F.
     + symmetry. eapply lookup_weaken; eassumption.
     + destruct (st !! h) as [w|] eqn:G; [|reflexivity].
       exfalso. apply NR. apply R; [eauto|exact F].
 Qed.
+
+(* ---- refinement: every native command computes what the specification says ------------------- *)
+Lemma keep_list (st : store) h l : look_list st h = Found l -> <[h := HList l]> st = st.
+Proof. intros E. apply insert_id. now apply look_list_found. Qed.
+Lemma keep_map (st : store) h m : look_map st h = Found m -> <[h := HMap m]> st = st.
+Proof. intros E. apply insert_id. now apply look_map_found. Qed.
+Lemma keep_set (st : store) h x : look_set st h = Found x -> <[h := HSet x]> st = st.
+Proof. intros E. apply insert_id. now apply look_set_found. Qed.
+
+Section Refine.
+Variable rnd : nat -> handle.
+Variable ord : nat -> list str -> list str.
+Notation step_s := (step_s rnd ord).
+
+Ltac open_spec := unfold step_s; cbv beta iota zeta delta [spec].
+Ltac done_keep := cbn [finish apply cres_of fst snd]; rewrite ?with_hs_id; reflexivity.
+
+Lemma r_array args s : cmd_array rnd args s = Done (step_s CArray args s).
+Proof. unfold cmd_array. open_spec. rewrite push_fold. cbn [app apply]. now destruct (put_handle _ _ _). Qed.
+
+Lemma r_range args s : cmd_range rnd args s = Done (step_s CRange args s).
+Proof.
+  unfold cmd_range. destruct args as [|a0 [|a1 rest]]; try reflexivity. open_spec.
+  destruct (parse_i64 a0) as [a|]; [|reflexivity].
+  destruct (parse_i64 a1) as [b|]; [|reflexivity].
+  destruct (b <? a)%Z; [reflexivity|]. cbn [apply]. now destruct (put_handle _ _ _).
+Qed.
+
+Lemma r_array_push args s : cmd_array_push args s = Done (step_s CArrayPush args s).
+Proof.
+  unfold cmd_array_push. destruct args as [|h vs]; [reflexivity|]. open_spec.
+  rewrite mutate_list_eq. unfold on. destruct (look_list (hs s) h) as [l| |] eqn:E; try done_keep.
+  rewrite push_fold. reflexivity.
+Qed.
+
+Lemma r_array_pop args s : cmd_array_pop args s = Done (step_s CArrayPop args s).
+Proof.
+  unfold cmd_array_pop. destruct args as [|h vs]; [reflexivity|]. open_spec.
+  rewrite mutate_list_eq. unfold on. destruct (look_list (hs s) h) as [l| |] eqn:E; try done_keep.
+  rewrite vec_pop_eq. reflexivity.
+Qed.
+
+Lemma r_array_get args s : cmd_array_get args s = Done (step_s CArrayGet args s).
+Proof.
+  unfold cmd_array_get. destruct args as [|h [|i rest]]; try reflexivity. open_spec.
+  destruct (parse_usize i) as [idx|]; [|reflexivity].
+  rewrite mutate_list_eq. unfold on. destruct (look_list (hs s) h) as [l| |] eqn:E; try done_keep.
+  unfold lookupN. destruct (len_gt l idx) eqn:G.
+  - destruct (vec_index_eq l (N.to_nat idx)) as (e & He & Hl); [now apply len_gt_lt|].
+    rewrite He, Hl. cbn [finish]. rewrite (keep_list _ _ _ E). done_keep.
+  - cbn [finish]. rewrite (keep_list _ _ _ E). done_keep.
+Qed.
+
+Lemma r_array_set args s : cmd_array_set args s = Done (step_s CArraySet args s).
+Proof.
+  unfold cmd_array_set. destruct args as [|h [|i [|v rest]]]; try reflexivity. open_spec.
+  destruct (parse_usize i) as [idx|]; [|reflexivity].
+  rewrite mutate_list_eq. unfold on. destruct (look_list (hs s) h) as [l| |] eqn:E; try done_keep.
+  destruct (len_gt l idx) eqn:G.
+  - rewrite vec_set_eq by now apply len_gt_lt. reflexivity.
+  - cbn [finish]. rewrite (keep_list _ _ _ E). done_keep.
+Qed.
+
+Lemma r_array_remove args s : cmd_array_remove args s = Done (step_s CArrayRemove args s).
+Proof.
+  unfold cmd_array_remove. destruct args as [|h [|i rest]]; try reflexivity. open_spec.
+  destruct (parse_usize i) as [idx|]; [|reflexivity].
+  rewrite mutate_list_eq. unfold on. destruct (look_list (hs s) h) as [l| |] eqn:E; try done_keep.
+  destruct (len_gt l idx) eqn:G.
+  - rewrite vec_remove_eq by now apply len_gt_lt. reflexivity.
+  - cbn [finish]. rewrite (keep_list _ _ _ E). done_keep.
+Qed.
+
+Lemma r_array_clear args s : cmd_array_clear args s = Done (step_s CArrayClear args s).
+Proof.
+  unfold cmd_array_clear. destruct args as [|h vs]; [reflexivity|]. open_spec.
+  rewrite mutate_list_eq. unfold on. destruct (look_list (hs s) h) as [l| |] eqn:E; done_keep.
+Qed.
+
+Lemma r_array_length args s : cmd_array_length args s = Done (step_s CArrayLength args s).
+Proof.
+  unfold cmd_array_length. destruct args as [|h vs]; [reflexivity|]. open_spec.
+  unfold on, look_list. destruct (hs s !! h) as [[]|]; reflexivity.
+Qed.
+
+Lemma r_map args s : cmd_map rnd args s = Done (step_s CMap args s).
+Proof. unfold cmd_map. open_spec. cbn [apply]. now destruct (put_handle _ _ _). Qed.
+
+Lemma r_map_put args s : cmd_map_put args s = Done (step_s CMapPut args s).
+Proof.
+  unfold cmd_map_put. destruct args as [|h [|k [|v rest]]]; try reflexivity. open_spec.
+  rewrite mutate_map_eq. unfold on. destruct (look_map (hs s) h) as [m| |] eqn:E; done_keep.
+Qed.
+
+Lemma r_map_get args s : cmd_map_get args s = Done (step_s CMapGet args s).
+Proof.
+  unfold cmd_map_get. destruct args as [|h [|k rest]]; try reflexivity. open_spec.
+  rewrite mutate_map_eq. unfold on. destruct (look_map (hs s) h) as [m| |] eqn:E; try done_keep.
+  destruct (m !! k) as [value|] eqn:G.
+  - rewrite (insert_delete m k value G). cbn [finish]. rewrite (keep_map _ _ _ E). done_keep.
+  - cbn [finish]. rewrite (keep_map _ _ _ E). done_keep.
+Qed.
+
+Lemma r_map_remove args s : cmd_map_remove args s = Done (step_s CMapRemove args s).
+Proof.
+  unfold cmd_map_remove. destruct args as [|h [|k rest]]; try reflexivity. open_spec.
+  rewrite mutate_map_eq. unfold on. destruct (look_map (hs s) h) as [m| |] eqn:E; done_keep.
+Qed.
+
+Lemma r_map_size args s : cmd_map_size args s = Done (step_s CMapSize args s).
+Proof.
+  unfold cmd_map_size. destruct args as [|h vs]; [reflexivity|]. open_spec.
+  unfold on, look_map. destruct (hs s !! h) as [[]|]; reflexivity.
+Qed.
+
+Lemma r_map_keys args s : cmd_map_keys rnd ord args s = Done (step_s CMapKeys args s).
+Proof.
+  unfold cmd_map_keys. destruct args as [|h vs]; [reflexivity|]. open_spec.
+  unfold on, look_map. destruct (hs s !! h) as [[]|]; try reflexivity.
+  rewrite push_fold. cbn [app apply]. now destruct (put_handle _ _ _).
+Qed.
+
+Lemma r_map_clear args s : cmd_map_clear args s = Done (step_s CMapClear args s).
+Proof.
+  unfold cmd_map_clear. destruct args as [|h vs]; [reflexivity|]. open_spec.
+  rewrite mutate_map_eq. unfold on. destruct (look_map (hs s) h) as [m| |] eqn:E; done_keep.
+Qed.
+
+Lemma r_set_new args s : cmd_set_new rnd args s = Done (step_s CSetNew args s).
+Proof.
+  unfold cmd_set_new. open_spec. rewrite set_fold.
+  replace (∅ ∪ list_to_set args : gset str) with (list_to_set args : gset str)
+    by (apply leibniz_equiv; set_solver).
+  cbn [apply]. now destruct (put_handle _ _ _).
+Qed.
+
+Lemma r_set_put args s : cmd_set_put args s = Done (step_s CSetPut args s).
+Proof.
+  unfold cmd_set_put. destruct args as [|h vs]; [reflexivity|]. open_spec.
+  rewrite mutate_set_eq. unfold on. destruct (look_set (hs s) h) as [x| |] eqn:E; try done_keep.
+  rewrite set_fold. reflexivity.
+Qed.
+
+Lemma r_set_remove args s : cmd_set_remove args s = Done (step_s CSetRemove args s).
+Proof.
+  unfold cmd_set_remove. destruct args as [|h [|v rest]]; try reflexivity. open_spec.
+  rewrite mutate_set_eq. unfold on. destruct (look_set (hs s) h) as [x| |] eqn:E; done_keep.
+Qed.
+
+Lemma r_set_contains args s : cmd_set_contains args s = Done (step_s CSetContains args s).
+Proof.
+  unfold cmd_set_contains. destruct args as [|h [|v rest]]; try reflexivity. open_spec.
+  rewrite mutate_set_eq. unfold on. destruct (look_set (hs s) h) as [x| |] eqn:E; try done_keep.
+  cbn [finish]. rewrite (keep_set _ _ _ E). done_keep.
+Qed.
+
+Lemma r_set_size args s : cmd_set_size args s = Done (step_s CSetSize args s).
+Proof.
+  unfold cmd_set_size. destruct args as [|h vs]; [reflexivity|]. open_spec.
+  unfold on, look_set. destruct (hs s !! h) as [[]|]; reflexivity.
+Qed.
+
+Lemma r_set_clear args s : cmd_set_clear args s = Done (step_s CSetClear args s).
+Proof.
+  unfold cmd_set_clear. destruct args as [|h vs]; [reflexivity|]. open_spec.
+  rewrite mutate_set_eq. unfold on. destruct (look_set (hs s) h) as [x| |] eqn:E; done_keep.
+Qed.
+
+Lemma r_set_to_array args s : cmd_set_to_array rnd ord args s = Done (step_s CSetToArray args s).
+Proof.
+  unfold cmd_set_to_array. destruct args as [|h vs]; [reflexivity|]. open_spec.
+  unfold on, look_set. destruct (hs s !! h) as [[]|]; try reflexivity.
+  rewrite push_fold. cbn [app apply]. now destruct (put_handle _ _ _).
+Qed.
+
+Lemma r_is_array args s : cmd_is_array args s = Done (step_s CIsArray args s).
+Proof.
+  unfold cmd_is_array. destruct args as [|h vs]; [reflexivity|]. open_spec.
+  unfold look_list. destruct (hs s !! h) as [[]|]; reflexivity.
+Qed.
+Lemma r_is_map args s : cmd_is_map args s = Done (step_s CIsMap args s).
+Proof.
+  unfold cmd_is_map. destruct args as [|h vs]; [reflexivity|]. open_spec.
+  unfold look_map. destruct (hs s !! h) as [[]|]; reflexivity.
+Qed.
+Lemma r_is_set args s : cmd_is_set args s = Done (step_s CIsSet args s).
+Proof.
+  unfold cmd_is_set. destruct args as [|h vs]; [reflexivity|]. open_spec.
+  unfold look_set. destruct (hs s !! h) as [[]|]; reflexivity.
+Qed.
+
+Lemma r_release args s : cmd_release args s = Done (step_s CRelease args s).
+Proof.
+  unfold cmd_release. destruct args as [|a0 rest]; [reflexivity|]. open_spec.
+  unfold release_flags.
+  set (kr := match rest with
+             | [] => (a0, false)
+             | a1 :: _ => if str_eqb a0 s_dash_r || str_eqb a0 s_recursive then (a1, true) else (a0, false)
+             end).
+  destruct kr as [key [|]].
+  - destruct (release_recursive_total (hs s) key) as (b & st' & E & _). rewrite E. reflexivity.
+  - destruct (hs s !! key); reflexivity.
+Qed.
+
+Lemma r_raw args s : cmd_raw rnd args s = Done (step_s CRaw args s).
+Proof. unfold cmd_raw. open_spec. cbn [apply]. now destruct (put_handle _ _ _). Qed.
+
+Theorem refines_step c args s :
+  native c = true -> step_m rnd ord c args s = Some (Done (step_s c args s)).
+Proof.
+  destruct c; cbn [native step_m]; intros Hn; try discriminate; f_equal;
+    auto using r_array, r_range, r_array_push, r_array_pop, r_array_get, r_array_set,
+      r_array_remove, r_array_clear, r_array_length, r_map, r_map_put, r_map_get, r_map_remove,
+      r_map_size, r_map_keys, r_map_clear, r_set_new, r_set_put, r_set_remove, r_set_contains,
+      r_set_size, r_set_clear, r_set_to_array, r_is_array, r_is_map, r_is_set, r_release, r_raw.
+Qed.
+
+Theorem step_h_native c args s : native c = true -> step_h rnd ord c args s = Done (step_s c args s).
+Proof. intros Hn. unfold step_h. now rewrite (refines_step c args s Hn). Qed.
+
+Theorem refines_run ops s :
+  Forall (fun o => native o.1 = true) ops -> run_h rnd ord ops s = Done (run_s rnd ord ops s).
+Proof.
+  intros HF. revert s. induction HF as [|[c args] ops Hc HF IH]; intros s; cbn [run_h run_s].
+  - reflexivity.
+  - rewrite (step_h_native c args s Hc). destruct (step_s c args s) as [r s'].
+    rewrite IH. now destruct (run_s rnd ord ops s').
+Qed.
+
+(* no native command panics or runs out of fuel *)
+Theorem native_no_panic c args s o :
+  step_m rnd ord c args s = Some o -> exists r, o = Done r.
+Proof.
+  intros E. destruct (native c) eqn:Hn.
+  - rewrite (refines_step c args s Hn) in E. injection E as <-. eauto.
+  - destruct c; cbn in E, Hn; discriminate.
+Qed.
+
+End Refine.
+
+(* ---- invariants of the specification: handles, frame, mismatch, verbatim --------------------- *)
+Section Facts.
+Variable rnd : nat -> handle.
+Variable ord : nat -> list str -> list str.
+Notation spec := (spec ord).
+Notation step_s := (step_s rnd ord).
+Notation apply := (apply rnd).
+
+(* every live handle is one of the keys drawn so far *)
+Definition Inv (s : mstate) : Prop :=
+  forall h, is_Some (hs s !! h) -> exists i, (i < draws s)%nat /\ h = rnd i.
+
+Definition sres_ok (s : mstate) (r : sres) : Prop :=
+  match r with
+  | SKeep _ => True
+  | SUpd _ h _ => is_Some (hs s !! h)
+  | SNew _ => True
+  | SDel _ st' => st' ⊆ hs s
+  end.
+
+Ltac open_spec := cbv beta iota zeta delta [CollectionsSpec.spec].
+Ltac split_matches :=
+  repeat match goal with
+         | |- context [match ?x with _ => _ end] => destruct x eqn:?
+         end.
+
+Lemma spec_ok c args s : sres_ok s (spec c args s).
+Proof.
+  destruct c; destruct args as [|a0 [|a1 [|a2 rest]]]; open_spec; unfold on; split_matches;
+    cbn [sres_ok]; try exact I;
+    try (match goal with H : look_list _ _ = Found _ |- _ => apply look_list_found in H; rewrite H; eauto end);
+    try (match goal with H : look_map _ _ = Found _ |- _ => apply look_map_found in H; rewrite H; eauto end);
+    try (match goal with H : look_set _ _ = Found _ |- _ => apply look_set_found in H; rewrite H; eauto end);
+    try apply delete_subseteq;
+    try (match goal with H : release_recursive _ _ = Done _ |- _ => apply rel_rec_good in H; apply H end).
+Qed.
+
+Lemma apply_inv s r : Inv s -> sres_ok s r -> Inv (apply s r).2.
+Proof.
+  intros HI Hok. destruct r as [c|c h v|v|c st']; cbn [apply sres_ok] in *.
+  - exact HI.
+  - intros h0 Hs. cbn in Hs. destruct (decide (h0 = h)) as [->|Hne].
+    + apply HI. exact Hok.
+    + rewrite lookup_insert_ne in Hs by congruence. apply HI. exact Hs.
+  - unfold put_handle. intros h0 Hs. cbn in *. destruct (decide (h0 = rnd (draws s))) as [->|Hne].
+    + exists (draws s). split; [lia|reflexivity].
+    + rewrite lookup_insert_ne in Hs by congruence.
+      destruct (HI h0 Hs) as (i & Hi & ->). exists i. split; [lia|reflexivity].
+  - intros h0 [w Hw]. cbn in Hw. apply HI. exists w. eapply lookup_weaken; eassumption.
+Qed.
+
+Inductive reachable : mstate -> Prop :=
+  | reachable_init : reachable init
+  | reachable_step s c args : reachable s -> reachable (step_s c args s).2.
+
+Lemma reachable_inv s : reachable s -> Inv s.
+Proof.
+  induction 1 as [|s c args R IH].
+  - intros h [v Hv]. cbn in Hv. rewrite lookup_empty in Hv. discriminate.
+  - unfold CollectionsSpec.step_s. apply apply_inv; [exact IH|apply spec_ok].
+Qed.
+
+Hypothesis rnd_inj : forall i j, rnd i = rnd j -> i = j.
+
+(* handles are distinct while live: a newly allocated handle is not the name of a live collection,
+   the command returns it, and every live collection keeps its contents *)
+Theorem fresh_handle s c args v :
+  reachable s -> spec c args s = SNew v ->
+  let h := rnd (draws s) in
+  hs s !! h = None /\ step_s c args s = (Cont (Some h), MS (<[h := v]> (hs s)) (S (draws s)) (stale s)) /\
+  forall h', is_Some (hs s !! h') -> hs (step_s c args s).2 !! h' = hs s !! h'.
+Proof.
+  intros R E h. pose proof (reachable_inv s R) as HI.
+  assert (Hn : hs s !! h = None).
+  { destruct (hs s !! h) eqn:F; [|reflexivity]. destruct (HI h) as (i & Hi & Hh); [eauto|].
+    apply rnd_inj in Hh. lia. }
+  split; [exact Hn|]. unfold CollectionsSpec.step_s. rewrite E. cbn [apply put_handle]. split; [reflexivity|].
+  intros h' Hs. cbn. apply lookup_insert_ne. intros Heq. unfold h in *. rewrite <- Heq, Hn in Hs. destruct Hs; discriminate.
+Qed.
+
+(* a command changes at most the one collection it is applied to *)
+Theorem frame s c args r h v h' :
+  spec c args s = SUpd r h v -> h' <> h -> hs (step_s c args s).2 !! h' = hs s !! h'.
+Proof.
+  intros E Hne. unfold CollectionsSpec.step_s. rewrite E. cbn. apply lookup_insert_ne. congruence.
+Qed.
+Theorem keep s c args r : spec c args s = SKeep r -> step_s c args s = (r, s).
+Proof. intros E. unfold CollectionsSpec.step_s. now rewrite E. Qed.
+
+(* ---- wrong kind / released / unknown handle --------------------------------------------------- *)
+Theorem mismatch c k h rest s :
+  wants c = Some k -> kind_at (hs s) h <> Some k ->
+  exists r, spec c (h :: rest) s = SKeep r /\ refused r.
+Proof.
+  intros W K. unfold kind_at in K.
+  destruct c; cbn [wants] in W; try discriminate; injection W as <-;
+    destruct rest as [|a1 [|a2 rest]]; open_spec;
+    unfold on, look_list, look_map, look_set;
+    destruct (hs s !! h) as [[l|m|x|t]|]; try (exfalso; apply K; reflexivity);
+    try (destruct (parse_usize a1));
+    (eexists; split; [reflexivity|]);
+    first [left; eexists; reflexivity | right; reflexivity].
+Qed.
+
+Lemma str_eqb_refl a : str_eqb a a = true.
+Proof. unfold str_eqb. now apply bool_decide_eq_true. Qed.
+
+Theorem release_unknown h s :
+  hs s !! h = None ->
+  step_s CRelease [h] s = (Cont (Some s_false), s) /\
+  step_s CRelease [s_dash_r; h] s = (Cont (Some s_false), s) /\
+  step_s CRelease [s_recursive; h] s = (Cont (Some s_false), s).
+Proof.
+  intros E. unfold CollectionsSpec.step_s. open_spec. unfold release_flags.
+  rewrite !str_eqb_refl, orb_true_r. cbn [orb].
+  unfold release_recursive. cbn [rel_rec]. rewrite E. cbn [CollectionsSpec.apply ok_bool bool_str].
+  rewrite with_hs_id. auto.
+Qed.
+
+Theorem concat_mismatch args a s :
+  a ∈ args -> kind_at (hs s) a <> Some KList -> spec CArrayConcat args s = SKeep (Error ETrigger).
+Proof.
+  intros Hin K. open_spec.
+  destruct (forallb _ args) eqn:F; [|reflexivity]. exfalso.
+  rewrite forallb_forall in F. apply elem_of_list_In in Hin. specialize (F a Hin).
+  unfold look_list, kind_at in *. destruct (hs s !! a) as [[]|]; try discriminate. now apply K.
+Qed.
+
+(* ---- values are stored and returned verbatim -------------------------------------------------- *)
+Theorem verbatim_array s h l vs :
+  look_list (hs s) h = Found l ->
+  let s' := (step_s CArrayPush (h :: vs) s).2 in
+  look_list (hs s') h = Found (l ++ (EStr <$> vs)) /\
+  forall j v i, vs !! j = Some v -> parse_usize i = Some (N.of_nat (length l + j)) ->
+    step_s CArrayGet [h; i] s' = (Cont (Some v), s').
+Proof.
+  intros E s'.
+  assert (Hs' : s' = with_hs s (<[h := HList (l ++ (EStr <$> vs))]> (hs s))).
+  { unfold s', CollectionsSpec.step_s. open_spec. unfold on. rewrite E. reflexivity. }
+  clearbody s'. subst s'.
+  assert (E' : look_list (hs (with_hs s (<[h := HList (l ++ (EStr <$> vs))]> (hs s)))) h
+               = Found (l ++ (EStr <$> vs))).
+  { unfold look_list. cbn [with_hs hs]. now rewrite lookup_insert. }
+  split; [exact E'|]. intros j v i Hj Hi.
+  unfold CollectionsSpec.step_s. open_spec. rewrite Hi. unfold on. rewrite E'.
+  rewrite lookupN_eq, Nat2N.id, lookup_app_r by lia.
+  replace (length l + j - length l)%nat with j by lia.
+  rewrite list_lookup_fmap, Hj. reflexivity.
+Qed.
+
+Theorem verbatim_map s h m k v :
+  look_map (hs s) h = Found m ->
+  let s' := (step_s CMapPut [h; k; v] s).2 in
+  step_s CMapGet [h; k] s' = (Cont (Some v), s').
+Proof.
+  intros E s'.
+  assert (Hs' : s' = with_hs s (<[h := HMap (<[k := EStr v]> m)]> (hs s))).
+  { unfold s', CollectionsSpec.step_s. open_spec. unfold on. rewrite E. reflexivity. }
+  clearbody s'. subst s'.
+  unfold CollectionsSpec.step_s. open_spec. unfold on, look_map. cbn [with_hs hs].
+  rewrite lookup_insert. rewrite lookup_insert. reflexivity.
+Qed.
+
+Theorem verbatim_set s h x vs v :
+  look_set (hs s) h = Found x -> v ∈ vs ->
+  let s' := (step_s CSetPut (h :: vs) s).2 in
+  step_s CSetContains [h; v] s' = (Cont (Some s_true), s').
+Proof.
+  intros E Hv s'.
+  assert (Hs' : s' = with_hs s (<[h := HSet (x ∪ list_to_set vs)]> (hs s))).
+  { unfold s', CollectionsSpec.step_s. open_spec. unfold on. rewrite E. reflexivity. }
+  clearbody s'. subst s'.
+  unfold CollectionsSpec.step_s. open_spec. unfold on, look_set. cbn [with_hs hs].
+  rewrite lookup_insert. unfold ok_bool. rewrite bool_decide_eq_true_2; [reflexivity|].
+  apply elem_of_union_r. now apply elem_of_list_to_set.
+Qed.
+
+(* map_keys / set_to_array list exactly the keys / members, in some order *)
+Hypothesis ord_perm : forall n l, ord n l ≡ₚ l.
+Theorem keys_perm s h m :
+  look_map (hs s) h = Found m ->
+  exists ks, spec CMapKeys [h] s = SNew (HList (EStr <$> ks)) /\ ks ≡ₚ (map_to_list m).*1.
+Proof. intros E. open_spec. unfold on. rewrite E. eexists. split; [reflexivity|apply ord_perm]. Qed.
+Theorem members_perm s h x :
+  look_set (hs s) h = Found x ->
+  exists ks, spec CSetToArray [h] s = SNew (HList (EStr <$> ks)) /\ ks ≡ₚ elements x.
+Proof. intros E. open_spec. unfold on. rewrite E. eexists. split; [reflexivity|apply ord_perm]. Qed.
+
+End Facts.
+
+Lemma mismatch_native rnd ord c k h rest s :
+  native c = true -> wants c = Some k -> kind_at (hs s) h <> Some k ->
+  exists r, step_m rnd ord c (h :: rest) s = Some (Done (r, s)) /\ refused r.
+Proof.
+  intros Hn W K.
+  destruct (mismatch ord c k h rest s W K) as (r & E & R). exists r. split; [|exact R].
+  rewrite (refines_step rnd ord c (h :: rest) s Hn). unfold step_s. now rewrite E.
+Qed.
+
+(* ---- non-vacuity ------------------------------------------------------------------------------ *)
+(* the oracle hypotheses are satisfiable *)
+Definition rnd0 (k : nat) : handle := replicate k 48%N.
+Definition ord0 (_ : nat) (l : list str) : list str := l.
+Lemma oracles_exist :
+  exists (rnd : nat -> handle) (ord : nat -> list str -> list str),
+    (forall i j, rnd i = rnd j -> i = j) /\ (forall n l, ord n l ≡ₚ l).
+Proof.
+  exists rnd0, ord0. split; [|reflexivity].
+  intros i j E. apply (f_equal length) in E. unfold rnd0 in E. now rewrite !replicate_length in E.
+Qed.
+
+(* a cyclic store: A = [B, A], B = {A}, C = {} ; releasing A recursively terminates and leaves C *)
+Definition hA : handle := [65%N]. Definition hB : handle := [66%N]. Definition hC : handle := [67%N].
+Definition cyc : store :=
+  <[hA := HList [EStr hB; EStr hA; ENum 7]]> (<[hB := HSet {[hA]}]> (<[hC := HMap ∅]> ∅)).
+Definition rel_flag (o : outcome (bool * store)) : option bool :=
+  match o with Done (b, _) => Some b | _ => None end.
+Definition rel_store (o : outcome (bool * store)) : store :=
+  match o with Done (_, st) => st | _ => ∅ end.
+Lemma release_cyclic :
+  let o := release_recursive cyc hA in
+  rel_flag o = Some true /\ kind_at (rel_store o) hA = None /\ kind_at (rel_store o) hB = None /\
+  kind_at (rel_store o) hC = Some KMap /\ reach cyc hA hB /\ reach cyc hB hA.
+Proof.
+  repeat (split; [vm_compute; reflexivity|]). split.
+  - eapply (reach_step cyc hA hA _ hB); [apply reach_refl; eexists; reflexivity|reflexivity| |eexists; reflexivity].
+    cbn. apply elem_of_list_here.
+  - eapply (reach_step cyc hB hB _ hA); [apply reach_refl; eexists; reflexivity|reflexivity| |eexists; reflexivity].
+    cbn. rewrite elements_singleton. apply elem_of_list_here.
+Qed.
+
+(* finding F6: after `a = array x ; array_concat ${a} nope` (an error), `array_concat nope` succeeds
+   in the as-is definition while the specification says it is an error *)
+Lemma F6_witness :
+  let nope : str := [110%N] in
+  let s1 := (step_s rnd0 ord0 CArray [[120%N]] init).2 in
+  let s2 := (concat_asis rnd0 [rnd0 0; nope] s1).2 in
+  (concat_asis rnd0 [rnd0 0; nope] s1).1 = Error ETrigger /\
+  (step_s rnd0 ord0 CArrayConcat [nope] s2).1 = Error ETrigger /\
+  (concat_asis rnd0 [nope] s2).1 = Cont (Some (rnd0 1)).
+Proof. vm_compute. auto. Qed.
